@@ -1,7 +1,7 @@
 # -*- coding: utf-8 -*-
 """fresh.py <Cxx>: evaluates, in THIS fresh interpreter, a list of cases of a plugin in order and reports for the last one
-whether implementation and model agree.  stdin: JSON {"cases": [...], "model": "<model answer of the last case>"}.
-stdout: one JSON line {"agree": bool, "impl": "<str(impl)[:400]>"}.  Used by common.run_check to tell a disagreement that
+whether implementation and model agree.  stdin: JSON {"cases": [...], "model": "<model answer of the last case>" | null, "oracle": bool}.
+stdout: one JSON line {"agree": bool, "impl": "<str(impl)[:400]>", "oracle": <oracle message of the last case> | null}.  Used by common.run_check to tell a disagreement that
 belongs to the input from one that belongs to the history of the process (state left behind by earlier evaluations)."""
 import json
 import sys
@@ -15,8 +15,13 @@ def main():
     impl = None
     for c in job['cases']:
         impl = plugin.impl(c)
-    ok = bool(plugin.agree(job['cases'][-1], impl, job['model']))
-    sys.stdout.write('\nFRESH-RESULT ' + json.dumps({'agree': ok, 'impl': str(impl)[:400]}) + '\n')
+    last = job['cases'][-1]
+    ok = bool(plugin.agree(last, impl, job['model'])) if job.get('model') is not None else True
+    msg = None
+    if job.get('oracle'):
+        # the plugin's oracle on the last case (the statement evaluated on the implementation only)
+        msg = plugin.oracle(last, impl)
+    sys.stdout.write('\nFRESH-RESULT ' + json.dumps({'agree': ok, 'impl': str(impl)[:400], 'oracle': msg}) + '\n')
 
 
 if __name__ == '__main__':
